@@ -1032,6 +1032,140 @@ static void scale_case(Ctx& ctx, Entry en, bool cplx, const std::string& letter,
     ctx.nontrivial();
 }
 
+// ------------------------------------------------------------------------------------------------ FirFilter retuned through coeffs()
+// The non-const coeffs() accessor is the public way to change the taps of a live filter ("for every coefficient vector"
+// covers vectors installed that way).  (a) h1 installed before any processing, (b) installed mid-stream after frames were
+// processed with h0, (c) h0 installed back: every output must equal the defining sum of the taps in force over the TRUE
+// input history (the delay line holds past input samples, which is what the unchanged tree does).
+static Sig retune_letter(const std::string& name, int nh, bool cplx) {
+    if (name == "zeros") {
+        Sig z;
+        z.resize((size_t)nh);
+        return z;
+    }
+    if (name == "tap0") return coef_letter("imp", 0, nh, cplx);
+    if (name == "tapL") return coef_letter("imp", nh - 1, nh, cplx);
+    if (name == "sparse") return coef_letter("sparse", 0, nh, cplx);
+    Sig d = coef_letter("dense", 0, nh, cplx);
+    if (name == "lead0")
+        for (int k = 0; k < (nh + 1) / 2; ++k) d.re[(size_t)k] = 0, d.im[(size_t)k] = 0;
+    if (name == "trail0")
+        for (int k = nh / 2; k < nh; ++k) d.re[(size_t)k] = 0, d.im[(size_t)k] = 0;
+    if (name == "dense*2^-60") d = scaled(d, -60);
+    if (name == "dense*2^200") d = scaled(d, 200);
+    return d;
+}
+
+template<class F, class A>
+static void install(F& f, const A& h, int mode) {
+    if (mode == 0) {
+        f.coeffs() = h;   // whole-array assignment (same length)
+    } else {
+        for (int k = 0; k < h.size(); ++k) f.coeffs()[k] = h[k];   // element-wise writes
+    }
+}
+
+static void retune_case(Ctx& ctx, bool cplx, int nh, const std::string& n0, const std::string& n1, int mode) {
+    const char* site = cplx ? "FirFilterC::coeffs/process" : "FirFilterR::coeffs/process";
+    const Sig h0 = retune_letter(n0, nh, cplx), h1 = retune_letter(n1, nh, cplx);
+    const std::vector<int> pre = {nh + 2, 3}, post = {1, nh + 4, 0, 7}, back = {nh + 1, 2};
+    int total = 0;
+    for (int v : pre) total += v;
+    for (int v : post) total += v;
+    for (int v : back) total += v;
+    const char* streams[] = {"lcg", "imp"};
+    double worst = 0;
+    for (const char* sk : streams) {
+        const Sig x = in_letter(sk, 0, total, cplx);
+        Sig r0, r1;
+        std::vector<double> S0, S1;
+        fir_ref(h0, x, cplx, r0, S0);
+        fir_ref(h1, x, cplx, r1, S1);
+        const double c0 = (double)h0.norm2(), c1 = (double)h1.norm2();
+        const arr_real xr = to_real(x), h0r = to_real(h0), h1r = to_real(h1);
+        const arr_cmplx xc = to_cmplx(x), h0c = to_cmplx(h0), h1c = to_cmplx(h1);
+        for (int variant = 0; variant < 2; ++variant) {   // 0: h1 installed before any processing, 1: mid-stream (and back)
+            try {
+                dsplib::FirFilterR fr(h0r);
+                dsplib::FirFilterC fc(h0c);
+                long fed = 0;
+                bool stop = false;
+                // feeds the frames and compares with the sums of the taps in force (which: 0 = h0, 1 = h1)
+                auto feed = [&](const std::vector<int>& frames, int which, const char* phase) {
+                    const Sig& ref = which ? r1 : r0;
+                    const std::vector<double>& S = which ? S1 : S0;
+                    const double cn = which ? c1 : c0;
+                    for (size_t ci = 0; ci < frames.size() && !stop; ++ci) {
+                        const int n = frames[ci];
+                        std::vector<double> ore((size_t)n, 0.0), oim((size_t)n, 0.0);
+                        long got;
+                        if (!cplx) {
+                            arr_real in(n);
+                            for (int i = 0; i < n; ++i) in[i] = xr[(int)fed + i];
+                            arr_real out = fr.process(in);
+                            got = out.size();
+                            for (int i = 0; i < std::min<long>(got, n); ++i) ore[(size_t)i] = out[i];
+                        } else {
+                            arr_cmplx in(n);
+                            for (int i = 0; i < n; ++i) in[i] = xc[(int)fed + i];
+                            arr_cmplx out = fc.process(in);
+                            got = out.size();
+                            for (int i = 0; i < std::min<long>(got, n); ++i) ore[(size_t)i] = out[i].re, oim[(size_t)i] = out[i].im;
+                        }
+                        const P det = P().kv("in", sk).kv("variant", variant).kv("phase", phase).kv("frame", (long)ci);
+                        if (got != n) {
+                            ctx.fail(site, fmt("%s: frame of %d samples returned %ld", phase, n, got), fmt("%d", n), P(det).kv("what", "size"));
+                            stop = true;
+                            break;
+                        }
+                        Sig rr;
+                        rr.resize((size_t)n);
+                        double xn2 = 0;
+                        for (long i = 0; i < fed + n; ++i) xn2 += (double)(x.re[(size_t)i] * x.re[(size_t)i] + x.im[(size_t)i] * x.im[(size_t)i]);
+                        for (int i = 0; i < n; ++i) rr.re[(size_t)i] = ref.re[(size_t)(fed + i)], rr.im[(size_t)i] = ref.im[(size_t)(fed + i)];
+                        const double g = 8.0 * EPS * cn * std::sqrt(xn2);
+                        Cmp q = compare(n, [&](long i) { return ore[(size_t)i]; }, [&](long i) { return oim[(size_t)i]; }, rr,
+                                        [&](long i) { return std::max(g, (nh + 8.0) * EPS * S[(size_t)(fed + i)]); });
+                        if (q.worst_ratio < 1e299) worst = std::max(worst, q.worst_ratio);
+                        if (q.bad >= 0) {
+                            ctx.fail(site,
+                                     q.nonfinite ? fmt("%s: non-finite output", phase)
+                                                 : fmt("taps %s -> %s (%s), %s, frame %zu: |y[%ld] - sum with the installed taps| = %.3g (stream index %ld)", n0.c_str(),
+                                                       n1.c_str(), mode ? "element-wise" : "assignment", phase, ci, q.bad, q.err_at, fed + q.bad),
+                                     fmt("<= %.3g (rounding accuracy)", q.tol_at), P(det).kv("i", q.bad).kv("what", "value"));
+                            stop = true;
+                        }
+                        fed += n;
+                    }
+                };
+                if (variant == 0) {
+                    if (cplx) install(fc, h1c, mode);
+                    else install(fr, h1r, mode);
+                    feed(pre, 1, "h1 installed at rest");
+                    feed(post, 1, "h1 installed at rest, later frames");
+                } else {
+                    feed(pre, 0, "before the switch");
+                    if (cplx) install(fc, h1c, mode);
+                    else install(fr, h1r, mode);
+                    feed(post, 1, "after the mid-stream switch to h1");
+                    if (cplx) install(fc, h0c, mode);
+                    else install(fr, h0r, mode);
+                    feed(back, 0, "after switching back to h0");
+                }
+                // the accessor must report what was installed
+                const bool okc = cplx ? bitsame(static_cast<const dsplib::FirFilterC&>(fc).coeffs(), variant ? h0c : h1c)
+                                      : bitsame(static_cast<const dsplib::FirFilterR&>(fr).coeffs(), variant ? h0r : h1r);
+                if (!okc) ctx.fail(site, "coeffs() const does not return the installed taps", "the installed taps", P().kv("in", sk).kv("variant", variant).kv("what", "readback"));
+            } catch (const std::exception& e) {
+                ctx.fail(site, fmt("taps %s -> %s: exception: %s", n0.c_str(), n1.c_str(), e.what()), "no exception",
+                         P().kv("in", sk).kv("variant", variant).kv("what", "throw"));
+            }
+        }
+    }
+    ctx.worst("retune err/tol", worst);
+    ctx.nontrivial();
+}
+
 // ------------------------------------------------------------------------------------------------ main
 int main(int argc, char** argv) {
     Ctx ctx;
@@ -1181,6 +1315,22 @@ int main(int argc, char** argv) {
             ma_case(ctx, n, 70000, true);
         }
     }
+    // ---- FirFilter retuned through the non-const coeffs() accessor (FftFilter has no setter)
+    {
+        const char* pairs[][2] = {{"zeros", "dense"},  {"dense", "zeros"}, {"lead0", "dense"}, {"trail0", "dense"},      {"dense", "sparse"},
+                                  {"sparse", "dense"}, {"tap0", "tapL"},   {"tapL", "tap0"},   {"dense", "dense*2^-60"}, {"dense*2^200", "dense"},
+                                  {"dense", "lead0"},  {"dense", "trail0"}};
+        for (int cplx = 0; cplx < 2; ++cplx)
+            // nh = 1 is outside the statement's range (2..1024): on the unchanged tree FirFilter with a single tap throws
+            // "Left slice index out of range" from every process() call (x.slice(nx, nx) of the delay update), retuned or not
+            for (int nh : {2, 3, 5, 8, 16, 33})
+                for (auto& pr : pairs)
+                    for (int mode = 0; mode < 2; ++mode) {
+                        if (!ctx.take("firfilter.retune", P().kv("cplx", cplx).kv("nh", nh).kv("h0", pr[0]).kv("h1", pr[1]).kv("mode", mode ? "elem" : "assign"))) continue;
+                        retune_case(ctx, cplx != 0, nh, pr[0], pr[1], mode);
+                    }
+    }
+
     // ---- scale invariance of every linear entry point
     {
         const char* letters[] = {"dense", "sparse", "nearsym", "tap0", "tapL"};
